@@ -296,11 +296,13 @@ func (c *GroupCoordinator) Heartbeat(ctx context.Context, req *kmsg.HeartbeatReq
 		c.mu.Unlock()
 		return mkResp(protocol.ILLEGAL_GENERATION)
 	}
+	// A heartbeat from a listed member of the current generation proves liveness in
+	// every phase; outside Stable it is still answered REBALANCE_IN_PROGRESS.
+	member.lastHeartbeat = time.Now()
 	if state.state != groupStateStable {
 		c.mu.Unlock()
 		return mkResp(protocol.REBALANCE_IN_PROGRESS)
 	}
-	member.lastHeartbeat = time.Now()
 	resp := mkResp(protocol.NONE)
 	if err := c.persistGroupLocked(ctx, req.Group, state); err != nil {
 		resp.ErrorCode = protocol.UNKNOWN_SERVER_ERROR
